@@ -241,6 +241,22 @@ static unsigned char *get_jpeg(const char *ref, size_t *outsz)
   return buf;
 }
 
+/* upper bound of the frame dimensions any SOFn-like byte pattern of the stream announces
+   (the caller of tj3Decompress*() must size the destination from the header; we over-approximate
+   so that corrupt headers can never make the harness itself under-allocate) */
+static int dim_bound(const unsigned char *b, size_t n, int *mw, int *mh)
+{
+  size_t p;
+  *mw = 1; *mh = 1;
+  for (p = 0; p + 9 <= n; p++)
+    if (b[p] == 0xFF && b[p + 1] >= 0xC0 && b[p + 1] <= 0xCF && b[p + 1] != 0xC4 && b[p + 1] != 0xC8 && b[p + 1] != 0xCC) {
+      int h = (b[p + 5] << 8) | b[p + 6], w = (b[p + 7] << 8) | b[p + 8];
+      if (w > *mw) *mw = w;
+      if (h > *mh) *mh = h;
+    }
+  return ((long long)*mw * *mh <= 1024LL * 1024LL);
+}
+
 /* ---------------------------------------------------------- error recording */
 static int hook_gs, hook_code, hook_soi, hook_sof, hook_um, hook_calls, hook_isd;
 static void hook_error_exit(j_common_ptr cinfo)
@@ -467,9 +483,13 @@ static void run_op(struct runctx *rc, char **tk, int nt, struct opres *r)
     /* d <prec> <jref> <pf>        ld <jref> <pf> <flags> */
     int legacy = op[0] == 'l';
     int prec = legacy ? 8 : IARG(1), pf = pf_of(ARG(3 - legacy));
-    size_t n, osz = (size_t)(MAXDIM * 2 + 32) * (MAXDIM * 2 + 32) * 4 * (prec > 8 ? 2 : 1);
+    size_t n, osz;
     unsigned char *jb = get_jpeg(ARG(2 - legacy), &n);
-    unsigned char *out = malloc(osz);
+    unsigned char *out;
+    int mw, mh;
+    if (!dim_bound(jb, n, &mw, &mh)) { free(jb); r->rc = -98; r->hash = hash; strcpy(r->stage, "SKIP"); return; }
+    osz = (size_t)(mw * 2 + 32) * (mh * 2 + 32) * 4 * (prec > 8 ? 2 : 1);
+    out = malloc(osz);
     memset(out, 0xA5, osz);
     if (legacy) r->rc = tjDecompress2(h, jb, (unsigned long)n, out, 0, 0, 0, pf, IARG(3));
     else if (prec <= 8) r->rc = tj3Decompress8(h, jb, n, out, 0, pf);
@@ -478,9 +498,13 @@ static void run_op(struct runctx *rc, char **tk, int nt, struct opres *r)
     hash = fnv(out, osz, hash); r->outn = osz;
     free(out); free(jb);
   } else if (!strcmp(op, "dy")) {
-    size_t n, osz = (size_t)(MAXDIM * 2 + 64) * (MAXDIM * 2 + 64) * 3;
+    size_t n, osz;
     unsigned char *jb = get_jpeg(ARG(1), &n);
-    unsigned char *out = malloc(osz);
+    unsigned char *out;
+    int mw, mh;
+    if (!dim_bound(jb, n, &mw, &mh)) { free(jb); r->rc = -98; r->hash = hash; strcpy(r->stage, "SKIP"); return; }
+    osz = (size_t)(mw * 2 + 64) * (mh * 2 + 64) * 3;
+    out = malloc(osz);
     memset(out, 0xA5, osz);
     r->rc = tj3DecompressToYUV8(h, jb, n, out, 1);
     hash = fnv(out, osz, hash); r->outn = osz;
@@ -579,11 +603,15 @@ static unsigned long long raw_decode(struct jpeg_decompress_struct *ci, struct p
 {
   size_t n;
   unsigned char *jb = get_jpeg(jref, &n);
-  unsigned char *row = malloc(MAXDIM * 8 * 2 + 64);
+  unsigned char * volatile row = NULL;
   unsigned long long hash = FNV0;
-  JSAMPROW rp = row;
+  JSAMPROW rp;
   volatile int stage = 0;
+  int mw, mh;
   *rcout = 0;
+  if (!dim_bound(jb, n, &mw, &mh)) { free(jb); *rcout = 3; return hash; }
+  row = malloc((size_t)mw * 8 * 2 + 64);
+  rp = row;
   if (setjmp(je->jb)) {
     *rcout = -(1 + stage);
     jpeg_abort_decompress(ci);
@@ -605,7 +633,7 @@ static unsigned long long raw_decode(struct jpeg_decompress_struct *ci, struct p
       hash = fnv(&k, sizeof(k), hash);
       if (ci->output_scanline >= ci->output_height) break;
     }
-    memset(row, 0x5A, MAXDIM * 8);
+    memset(row, 0x5A, (size_t)mw * 8);
     if (jpeg_read_scanlines(ci, &rp, 1) != 1) break;
     hash = fnv(row, (size_t)ci->output_width * ci->output_components, hash);
   }
